@@ -42,13 +42,15 @@ Judge(e, r) ==
 \* supposed to stay inside; a violation is a failure of the machinery, not of biotite)
 DomOK(e, a) ==
   IF e.kind = "annseq" THEN
-    CASE e.op = "construct" -> WellFormedAnn(a[1]) /\ Dom_LocsInSeq(AS(a[1], a[2], a[3]))
+    CASE e.op = "construct" -> WellFormedAnn(a[1]) /\ Dom_LocsInSeq(AS(a[1], a[2], a[3])) /\ Dom_Syms(a[2])
       [] e.op = "slice" -> \/ Dom_SliceInSeq(S, a[1], a[2])
                            \/ (~IsNone(a[1]) /\ Val(a[1]) = S.start - 1 /\ ~Dom_SliceInSeq(S, a[1], a[2]))
       [] e.op = "getfeat" -> Dom_FeatIndex(S, a[1])
       [] e.op = "setfeat" -> Dom_SetFeature(S, a[1], a[2])
-      [] e.op \in {"getint", "setint"} -> a[1] \in PosSet(S)
+      [] e.op = "getint" -> a[1] \in PosSet(S)
+      [] e.op = "setint" -> a[1] \in PosSet(S) /\ Dom_WriteSym(S, a[2])
       [] e.op = "setslice" -> Dom_SliceInSeq(S, a[1], a[2]) /\ Len(a[3]) = SliceHi(S, a[2]) - SliceLo(S, a[1])
+                              /\ Dom_Write(S, a[3])
       [] e.op = "add" -> WellFormedFeat(a[1]) /\ Dom_FeatInSeq(S, a[1])
       [] OTHER -> TRUE
   ELSE
